@@ -584,19 +584,25 @@ func exec1(c *Case, onVM func(*otto.Otto)) Obs {
 		case <-vm.Interrupt:
 		default:
 		}
-		after := guard(func() error {
-			v, err := vm.Run("1+1")
-			if err != nil {
-				return err
+		var after Obs
+		for try := 0; try < 3; try++ {
+			after = guard(func() error {
+				v, err := vm.Run("1+1")
+				if err != nil {
+					return err
+				}
+				if s := v.String(); s != "2" {
+					return fmt.Errorf("1+1 gives %s afterwards", s)
+				}
+				if d := otto.VerifScopeDepth(vm); d != 0 {
+					return fmt.Errorf("%d execution contexts left on the stack at rest", d)
+				}
+				return nil
+			})
+			if after.Kind != "interrupted" { // the watchdog's interrupt may arrive late; it is not the runtime's doing
+				break
 			}
-			if s := v.String(); s != "2" {
-				return fmt.Errorf("1+1 gives %s afterwards", s)
-			}
-			if d := otto.VerifScopeDepth(vm); d != 0 {
-				return fmt.Errorf("%d execution contexts left on the stack at rest", d)
-			}
-			return nil
-		})
+		}
 		if after.Kind != "value" {
 			obs.After = after.Kind + ": " + after.Class + ": " + after.Msg
 		}
